@@ -30,6 +30,21 @@ func init() { engines["peerbook"] = enginePeerbook }
 const pbPoint = "peer.addConnection.afterCheck"
 const pbAddPoint = "peerlist.Add.afterRootAdd"
 
+// Two further points make the ORDER of a connection's state change and the steps of its own
+// activation observable: pbAppended fires (on the activating goroutine) right after a successful
+// append in Peer.addConnection, pbRoundDone after every Peer.addConnection call of
+// Channel.addConnectionToPeer, appended or not.  A connection can stop being active (remote close,
+// socket failure seen by the reader, a delayed idle sweep) while its activation is still going
+// through its host:ports; whether the append for a host:port happened before or after that change
+// cannot be told from states and snapshots.  With the points the harness knows, once the
+// activation is over, for exactly how many host:ports the implementation appended, and places the
+// state change in the model's script in front of the first append that did not happen.  In a
+// library without the points such cases are judged by the oracles only (histogram label).
+const pbAppended = "peer.addConnection.appended"
+const pbRoundDone = "chan.addConnectionToPeer.done"
+
+var pbHasPoints bool
+
 type pbClock struct {
 	mu  sync.Mutex
 	now time.Time
@@ -58,6 +73,21 @@ type pbSide struct {
 	parkPeer  map[int]*tchannel.Peer // root peer of the round's host:port when the goroutine parked
 	returned  bool                   // dial side: Channel.Connect returned this connection
 	link      *pbLink
+	appends   int  // successful appends of the activation (pbAppended)
+	dones     int  // Peer.addConnection calls of the activation that are over (pbRoundDone)
+	modelDone bool // the model's activation goroutine has been run to its end by a settle op of the script
+}
+
+// finished: every round of the activation is over in the implementation (only meaningful with
+// the points; the dial side is also over when Connect has returned).
+func (s *pbSide) finished() bool {
+	if s.returned {
+		return true
+	}
+	if s.info.Dir == 2 {
+		return s.dones >= len(s.hps)
+	}
+	return s.dones >= 1
 }
 
 type pbLink struct {
@@ -84,6 +114,7 @@ type pbChan struct {
 	ticker   chan time.Time
 	cbMu     sync.Mutex
 	cbLog    []string
+	cbObjs   map[*tchannel.Peer]bool // Peer objects that fired a status callback; true = the object was the root list's peer at one of them
 	script   []int64
 	obs      []int64
 	sides    []*pbSide
@@ -96,6 +127,9 @@ type pbChan struct {
 	prev     *pbView
 	parkWant [3]bool // park the next activation on this channel at round 1 / 2
 	nconn    int
+	// ambiguous != "": the order of two events of this channel could not be observed; the case is
+	// judged by the oracles only (no model correspondence)
+	ambiguous string
 }
 
 type pbScenario struct {
@@ -123,7 +157,40 @@ type pbScenario struct {
 
 var pbFailures int
 
+// pbProbePoints: does the library under test have the two ordering points?
+func pbProbePoints() bool {
+	var mu sync.Mutex
+	seen := map[string]bool{}
+	tchannel.VerifSetHook(func(name string, id uint32) { mu.Lock(); seen[name] = true; mu.Unlock() })
+	defer tchannel.VerifSetHook(nil)
+	srv, err := tchannel.NewChannel("pb-probe-srv", &tchannel.ChannelOptions{Logger: tchannel.NullLogger})
+	if err != nil {
+		panic(err)
+	}
+	defer srv.Close()
+	if err := srv.ListenAndServe("127.0.0.1:0"); err != nil {
+		panic(err)
+	}
+	cli, err := tchannel.NewChannel("pb-probe-cli", &tchannel.ChannelOptions{Logger: tchannel.NullLogger})
+	if err != nil {
+		panic(err)
+	}
+	defer cli.Close()
+	ctx, cancel := context.WithTimeout(context.Background(), 3*time.Second)
+	defer cancel()
+	if _, err := cli.Connect(ctx, srv.PeerInfo().HostPort); err != nil {
+		return false
+	}
+	mu.Lock()
+	defer mu.Unlock()
+	return seen[pbAppended] && seen[pbRoundDone]
+}
+
 func enginePeerbook(rng *rand.Rand, n int, tier string, o *Out) {
+	pbHasPoints = pbProbePoints()
+	if !pbHasPoints {
+		o.Hist("library has no points " + pbAppended + " / " + pbRoundDone + ": state changes during an activation are judged by the oracles only")
+	}
 	for k := 0; k < n; k++ {
 		sc := newPbScenario(rng, o)
 		nops := 4 + rng.Intn(7)
@@ -154,11 +221,17 @@ func newPbScenario(rng *rand.Rand, o *Out) *pbScenario {
 		ncli = 1
 	}
 	for i := 0; i < nsrv+ncli; i++ {
-		pc := &pbChan{idx: i, ticker: make(chan time.Time), tainted: map[string]bool{}, seen: map[string]map[uint32]bool{}}
+		pc := &pbChan{idx: i, ticker: make(chan time.Time), tainted: map[string]bool{}, seen: map[string]map[uint32]bool{}, cbObjs: map[*tchannel.Peer]bool{}}
 		opts := &tchannel.ChannelOptions{
 			OnPeerStatusChanged: func(p *tchannel.Peer) {
+				isRoot := false
+				if pc.ch != nil {
+					cur, ok := pc.ch.RootPeers().Get(p.HostPort())
+					isRoot = ok && cur == p
+				}
 				pc.cbMu.Lock()
 				pc.cbLog = append(pc.cbLog, p.HostPort())
+				pc.cbObjs[p] = pc.cbObjs[p] || isRoot
 				pc.cbMu.Unlock()
 			},
 			TimeNow: sc.clock.Now,
@@ -271,6 +344,18 @@ func (sc *pbScenario) hook(name string, id uint32) {
 			close(arrived)
 			<-release
 		}
+		return
+	}
+	if name == pbAppended || name == pbRoundDone {
+		sc.mu.Lock()
+		if s := sc.sides[id]; s != nil {
+			if name == pbAppended {
+				s.appends++
+			} else {
+				s.dones++
+			}
+		}
+		sc.mu.Unlock()
 		return
 	}
 	if name != pbPoint {
@@ -426,6 +511,31 @@ func (sc *pbScenario) judge(pc *pbChan, v *pbView) (string, bool) {
 			if cur, _ := pc.ch.RootPeers().Get(hp); cur != was {
 				if in, out := was.NumConnections(); in+out > 0 {
 					pc.tainted[hp] = true
+				}
+			}
+		}
+	}
+	// the same window opened WITHOUT a forced schedule (e.g. a peer's last connection goes away while
+	// a new connection from the same host:port is being activated): a Peer object that WAS the root
+	// list's peer (seen as such when it fired a status callback) has been collected and still has
+	// connections listed under it.  The interleaving is not in the channel's script, so the case is
+	// judged by the oracles only; the verdict is the known finding.  (An object that never was the
+	// root's peer does not qualify.)
+	pc.cbMu.Lock()
+	var wasRoot []*tchannel.Peer
+	for p, r := range pc.cbObjs {
+		if r {
+			wasRoot = append(wasRoot, p)
+		}
+	}
+	pc.cbMu.Unlock()
+	for _, p := range wasRoot {
+		hp := p.HostPort()
+		if cur, _ := pc.ch.RootPeers().Get(hp); cur != p {
+			if in, out := p.NumConnections(); in+out > 0 && !pc.tainted[hp] {
+				pc.tainted[hp] = true
+				if pc.ambiguous == "" {
+					pc.ambiguous = "the known window c16:peer-collected-during-add opened without a forced schedule"
 				}
 			}
 		}
@@ -607,15 +717,51 @@ func (sc *pbScenario) recordChanges() {
 	}
 }
 
+// The settle op (11) lets every goroutine of the model that is not parked run to its end, the
+// activation of a new or just released connection included, with the connection states recorded
+// so far.  If such a connection is found not active any more, its state change has to go in front
+// of the first append that the implementation did NOT perform (the activation saw the change),
+// not behind the whole activation: the model's goroutine is parked at that append, the change is
+// recorded, the goroutine released.  Which append that is, is known from the pbAppended count once
+// the activation is over (settle waits for that); otherwise the order is unobservable and the
+// channel's case is judged by the oracles only.
 // caller holds sc.mu
 func (sc *pbScenario) recordChangesOf(pc *pbChan) {
+	states := make([]int, len(pc.sides))
+	var post []int64
+	for i, s := range pc.sides {
+		states[i] = tchannel.VerifConnState(s.conn)
+		if s.modelDone || s.parked != 0 {
+			continue
+		}
+		if pbHasPoints && !s.finished() {
+			// the implementation's activation is still on its way while the model's would be run to
+			// its end: whatever is recorded or compared from here on may be out of step
+			if pc.ambiguous == "" {
+				pc.ambiguous = "an activation was still in flight at a recording point"
+			}
+		} else if s.lastState == 1 && states[i] != 1 && !pc.closed {
+			if !pbHasPoints {
+				if pc.ambiguous == "" {
+					pc.ambiguous = "a connection stopped being active during or right after its activation (library without ordering points)"
+				}
+			} else if s.appends < len(s.hps) {
+				// appended for the first s.appends host:ports only
+				pc.script = append(pc.script, 7, int64(s.ord), int64(len(s.hps)-s.appends-1))
+				post = append(post, 8, int64(s.ord))
+				sc.o.Hist(fmt.Sprintf("ordered: state change placed before append %d of %d of the connection's activation", s.appends+1, len(s.hps)))
+			}
+		}
+		s.modelDone = true
+	}
 	pc.script = append(pc.script, 11)
-	for _, s := range pc.sides {
-		if st := tchannel.VerifConnState(s.conn); st != s.lastState {
+	for i, s := range pc.sides {
+		if st := states[i]; st != s.lastState {
 			pc.script = append(pc.script, 1, int64(s.ord), int64(st))
 			s.lastState = st
 		}
 	}
+	pc.script = append(pc.script, post...)
 }
 
 // settle waits for a quiescent moment at which the oracles hold (or the timeout), appends the
@@ -637,6 +783,15 @@ func (sc *pbScenario) settle() {
 			if !pc.failed {
 				if msg, definitive := sc.judge(pc, v); msg != "" && !definitive {
 					ok = false
+				}
+			}
+			if pbHasPoints {
+				// an activation that is neither parked nor replayed yet must be over before its
+				// outcome is recorded
+				for _, s := range pc.sides {
+					if !s.modelDone && s.parked == 0 && !s.finished() {
+						ok = false
+					}
 				}
 			}
 		}
@@ -1186,6 +1341,12 @@ func (sc *pbScenario) finish(id string) {
 	for i, pc := range sc.chans {
 		nontrivial := pc.nconn > 0
 		sc.o.Hist(fmt.Sprintf("conns-per-channel=%d", pbMinInt(pc.nconn, 6)))
+		if pc.ambiguous != "" {
+			// oracle-only: the statement-level verdict stands, the model is not consulted
+			sc.o.Hist("oracle-only: " + pc.ambiguous)
+			sc.o.Oracle("peerbook", fmt.Sprintf("%sc%d", id, i), nontrivial, fmt.Sprint(pc.script), pc.verdict)
+			continue
+		}
 		sc.o.Case("peerbook", fmt.Sprintf("%sc%d", id, i), pc.script, pc.obs, nontrivial, pc.verdict)
 	}
 	sc.o.Sample(map[string]interface{}{"sub": "peerbook", "scenario": id, "operations": sc.desc, "channel0_script": sc.chans[0].script})
